@@ -150,6 +150,7 @@ def r1(ctx) -> None:
     cp = ctx.fn(PS, "Parameters.copy")
     flc = lib.flow(cp, repo)
     rets = lib.nodes(cp, ast.Return)
+    ctx.sites('C10-R1', "sites iterated at rules/c10.py:153 (rets)", len(rets), 1)
     for r in rets:
         v = r.value
         ok = isinstance(v, ast.Call) and norm(v.func) in ("Parameters", "cls", "type(self)", "self.__class__") and v.args
@@ -207,6 +208,7 @@ def r2(ctx) -> None:
                "the copy must dominate every call that sets attributes on the item")
     rets = lib.nodes(fi, ast.Return)
     fl = lib.flow(fi, repo)
+    ctx.sites('C10-R2', "sites iterated at rules/c10.py:210 (rets)", len(rets), 1)
     for r in rets:
         ds = fl.reaching(p0, r)
         ctx.ob("C10-R2", "fill_item/returns-copy", isinstance(r.value, ast.Name) and r.value.id == p0
